@@ -318,4 +318,84 @@ Definition spec_arg_vals (better : V -> V -> bool) (ς : sstate) (x : sten) (axi
           end)
        (coords outer_sh)).
 
+(* --- concatenate / stack / repeat (C10): NumPy's placement on logical arrays; results are
+   fresh tensors.  None = refused (shapes do not fit) --- *)
+Definition val_at (ς : sstate) (x : sten) (c : list Z) : V :=
+  nth (nth (Z.to_nat (rank_rm (s_shape x) c)) (s_cells x) O) (s_vals ς) vzero.
+
+Fixpoint same_except (axis : nat) (i : nat) (a b : list Z) : bool :=
+  match a, b with
+  | [], [] => true
+  | x :: a', y :: b' => (Nat.eqb i axis || (x =? y)) && same_except axis (S i) a' b'
+  | _, _ => false
+  end.
+
+(* the operand and the coordinate inside it that supplies position k along the axis *)
+Fixpoint locate (xs : list sten) (axis : nat) (k : Z) : option (sten * Z) :=
+  match xs with
+  | [] => None
+  | x :: r => let e := znth 0 (s_shape x) (Z.of_nat axis) in
+              if k <? e then Some (x, k) else locate r axis (k - e)
+  end.
+
+Definition spec_concat_vals (ς : sstate) (xs : list sten) (axis : Z) : option (list Z * list V) :=
+  match xs with
+  | [] => None
+  | x0 :: _ =>
+    let n := length (s_shape x0) in
+    if (axis <? 0) || (Z.of_nat n <=? axis) then None else
+    let ax := Z.to_nat axis in
+    if negb (forallb (fun x => same_except ax 0 (s_shape x0) (s_shape x)) xs) then None else
+    let total := sumz (map (fun x => znth 0 (s_shape x) axis) xs) in
+    let sh := upd (s_shape x0) ax total in
+    Some (sh, map (fun c => match locate xs ax (znth 0 c axis) with
+                            | Some (x, k) => val_at ς x (upd c ax k)
+                            | None => vzero end) (coords sh))
+  end.
+
+Fixpoint insert_nth_z (n : nat) (v : Z) (l : list Z) : list Z :=
+  match n, l with
+  | O, _ => v :: l
+  | S n', y :: r => y :: insert_nth_z n' v r
+  | S _, [] => [v]
+  end.
+Fixpoint remove_nth_s {A} (n : nat) (l : list A) : list A :=
+  match l, n with
+  | [], _ => []
+  | _ :: r, O => r
+  | x :: r, S n' => x :: remove_nth_s n' r
+  end.
+
+Definition spec_stack_vals (ς : sstate) (xs : list sten) (axis : Z) : option (list Z * list V) :=
+  match xs with
+  | [] => None
+  | x0 :: _ =>
+    let n := length (s_shape x0) in
+    if (axis <? 0) || (Z.of_nat n <? axis) then None else
+    if negb (forallb (fun x => list_eqb (s_shape x0) (s_shape x)) xs) then None else
+    let ax := Z.to_nat axis in
+    let sh := insert_nth_z ax (zlen xs) (s_shape x0) in
+    Some (sh, map (fun c => val_at ς (nth (Z.to_nat (znth 0 c axis)) xs x0) (remove_nth_s ax c)) (coords sh))
+  end.
+
+(* source index for position k along a repeated axis with per-element counts *)
+Fixpoint rep_src (reps : list Z) (k : Z) (i : Z) : Z :=
+  match reps with
+  | [] => i
+  | r :: rest => if k <? r then i else rep_src rest (k - r) (i + 1)
+  end.
+
+Definition spec_repeat_vals (ς : sstate) (x : sten) (axis : Z) (reps : list Z) : option (list Z * list V) :=
+  (* axis -1: flatten first *)
+  let x' := if axis =? -1 then mkSten [size (s_shape x)] (s_cells x) None 0 false false else x in
+  let axis := if axis =? -1 then 0 else axis in
+  let n := zlen (s_shape x') in
+  if (axis <? 0) || (n <=? axis) then None else
+  let e := znth 0 (s_shape x') axis in
+  let reps' := match reps with [r] => repeat r (Z.to_nat e) | _ => reps end in
+  if negb (zlen reps' =? e) || negb (forallb (fun r => 0 <=? r) reps') then None else
+  let ax := Z.to_nat axis in
+  let sh := upd (s_shape x') ax (sumz reps') in
+  Some (sh, map (fun c => val_at ς x' (upd c ax (rep_src reps' (znth 0 c axis) 0))) (coords sh)).
+
 End Spec.
